@@ -19,7 +19,7 @@ ASSUMPTIONS = [
     "'below a metadata element' = proper descendants of a node named metadata; the metadata node itself is judged",
     "replacement of metadata content keeps the class 'at most one child' / 'more than one child'",
 ]
-REQUIRED = ["trees_with_more_than_5000_errors", "trees_with_repeated_id_strings", "trees", "trees_ge2_invalid_nodes", "trees_invalid_below_metadata", "metamorphic_reruns", "trace_checked",
+REQUIRED = ["vocabulary_probes", "trees_with_more_than_5000_errors", "trees_with_repeated_id_strings", "trees", "trees_ge2_invalid_nodes", "trees_invalid_below_metadata", "metamorphic_reruns", "trace_checked",
             "failfast_ok_trees", "failfast_failing_trees"]
 EXHAUSTIVE = {"quick": False, "thorough": False}
 
@@ -276,6 +276,22 @@ def run(ctx, params):
     for label, t in anytrees.allowed_unknown_cases(gen):
         judge(ctx, t, "allowed-but-unknown child " + label)
         emlkit.discard(t)
+    # every element name the library knows (and common foreign ones) once as an intermediate node with invalid nodes below it: the walk
+    # goes through it whatever it is called - unless it is called metadata
+    from vlib.emlkit import mrule as _mr
+    for nm in list(_mr.node_names()) + [x for x in treegen.FOREIGN_NAMES if x]:
+        root = Node("dataset")
+        root.add_child(Node("title", content="t"))
+        mid = Node(nm)
+        root.add_child(mid)
+        low = Node("creator")
+        low.add_child(Node("verifUnknown"))
+        low.add_child(Node("surName"))
+        mid.add_child(low)
+        mid.add_child(Node("title"))
+        judge(ctx, root, f"vocabulary probe: <{nm}> between the root and invalid nodes")
+        ctx.count("vocabulary_probes")
+        emlkit.discard(root)
     # a very wide table with thousands of stub attributes: many thousands of errors, none of them may be dropped
     wide = Node("attributeList")
     for k in range(2200 if ctx.tier == "quick" else 9000):
